@@ -9,7 +9,7 @@ from vp.engine import SubCheck, machine_base, replay_history
 
 PROPERTY = "C15"
 RULE = (
-    "(extended) data and noise in flux units of 2**k, k in {-10,0,10,14,18}. "
+    "(extended 3) setters: the slots are filled by the library's own Preloads.set_* methods (drawn subset and order) from two fits whose inversions were built on identical, separately constructed inputs (fully read or untouched), then four successive inversions (both requested formalisms, twice) use that one Preloads object. (extended 2) more_slots: the remaining public slots an imaging inversion consults (data_vector_mapper, curvature_matrix_mapper_diag, mapper_operated_mapping_matrix_dict, linear_func_operated_mapping_matrix_dict, data_linear_func_matrix_dict), taken from a w-tilde inversion on identical separately built inputs (dictionaries keyed by that inversion's own objects), every one of the 2^5-1 subsets x both formalisms, combined with a drawn subset of the main slots; the history machine draws them too. (extended) data and noise in flux units of 2**k, k in {-10,0,10,14,18}. "
     "subsets: C04-style scenarios (1..3 linear objects mixing rectangular / Delaunay mappers and function lists, "
     "square/non-square, signed PSFs) x both formalisms x every one of the 2^5 subsets of the preload slots {w_tilde, "
     "curvature_matrix, regularization_matrix, log_det_regularization_matrix_term, operated_mapping_matrix} "
@@ -187,6 +187,170 @@ def body_subsets(case, ctx):
 
 
 # ---------------------------------------------------------------------------------------------
+# the remaining public slots that an imaging inversion consults: mapper / function-list partial products
+ESLOTS = ["data_vector_mapper", "curvature_matrix_mapper_diag", "mapper_operated_mapping_matrix_dict",
+          "linear_func_operated_mapping_matrix_dict", "data_linear_func_matrix_dict"]
+_EATTR = {"data_vector_mapper": "_data_vector_mapper", "curvature_matrix_mapper_diag": "_curvature_matrix_mapper_diag",
+          "mapper_operated_mapping_matrix_dict": "mapper_operated_mapping_matrix_dict",
+          "linear_func_operated_mapping_matrix_dict": "linear_func_operated_mapping_matrix_dict",
+          "data_linear_func_matrix_dict": "data_linear_func_matrix_dict"}
+
+
+def _copy_slot(v):
+    if v is None:
+        return None
+    if isinstance(v, dict):
+        return {k: np.array(x, dtype=float).copy() for k, x in v.items()}
+    return np.array(v, dtype=float).copy()
+
+
+def _slot_fps(kw):
+    out = {}
+    for k, v in kw.items():
+        if isinstance(v, np.ndarray):
+            out[k] = _fp(v)
+        elif isinstance(v, dict):
+            out[k] = tuple(_fp(x) for x in v.values())
+    return out
+
+
+@st.composite
+def more_slots_case(draw):
+    c = draw(scene.scenarios(max_objs=3, img_kwargs=dict(max_inner=4, max_k=3, unit_exponents=(0, 0, 0, -10, 10, 14)), obj_kwargs=dict(max_sub=2, max_mesh=4)))
+    c["main_bits"] = draw(st.sampled_from([0, 0, 0, 1, 2, 4, 8, 16, 3, 6, 21, 31]))
+    c["positive_only"] = draw(st.sampled_from([False, False, True]))
+    return c
+
+
+def body_more_slots(case, ctx):
+    """Partial-product slots (the ones Preloads.set_curvature_matrix / set_linear_func_inversion_dicts fill): values taken from
+    an inversion of the w-tilde formalism on identical, separately built inputs (dictionaries keyed by THAT inversion's
+    linear objects), supplied in every one of the 2^5 subsets to both formalisms."""
+    import autoarray as aa
+    from autoarray import exc
+    scene.scene_labels(case, ctx)
+    types = [o["type"] for o in case["objs"]]
+    all_func = all(t == "func" for t in types)
+    ctx.nt("func" in types and len(set(types)) > 1 or len(types) >= 2)
+    ctx.label("objs:func+mapper" if ("func" in types and not all_func) else ("objs:func-only" if all_func else "objs:mappers-only"))
+    pos = case["positive_only"]
+    bases = {w: Baseline(case, w, pos) for w in (False, True)}
+    aux_sc = scene.build_scene(case)
+    aux = aa.Inversion(dataset=aux_sc.dataset, linear_obj_list=aux_sc.objs, settings=_settings(aa, True, pos))
+    values = {name: _copy_slot(getattr(aux, attr)) for name, attr in _EATTR.items()}
+    for name, v in values.items():
+        ctx.label("slot-available:%s" % name if v is not None and (not isinstance(v, dict) or len(v)) else "slot-empty:%s" % name)
+    main_subset = [s for i, s in enumerate(SLOTS) if (case["main_bits"] >> i) & 1]
+    for use_w in (False, True):
+        base = bases[use_w]
+        fname = "w_tilde" if use_w else "mapping"
+        for bits in range(1, 32):
+            subset = [s for i, s in enumerate(ESLOTS) if (bits >> i) & 1]
+            if any(values[s] is None for s in subset):
+                continue
+            sc = scene.build_scene(case)
+            pre, kw = _preloads_from(aa, base, main_subset, sc.dataset)
+            for s in subset:
+                kw[s] = _copy_slot(values[s])
+                setattr(pre, s, kw[s])
+            fps = _slot_fps(kw)
+            inv = aa.Inversion(dataset=sc.dataset, linear_obj_list=sc.objs, settings=_settings(aa, use_w, pos), preloads=pre)
+            tag = "+".join(subset + main_subset)
+            prefix = "more-slots/%s" % fname
+            for q in QUANTITIES:
+                try:
+                    got = _read(inv, q)
+                except exc.InversionException:
+                    ctx.check(q in base.errs, prefix + "/exception-mismatch", "preloaded inversion raised InversionException reading %s, baseline did not (slots %s)" % (q, tag))
+                    continue
+                if q in base.errs:
+                    ctx.fail(prefix + "/exception-mismatch", "baseline raised reading %s, preloaded did not (slots %s)" % (q, tag))
+                    continue
+                _compare(ctx, q, got, base, prefix + "/" + ("func+mapper" if ("func" in types and not all_func) else "other"))
+            now = _slot_fps(kw)
+            for k, h in fps.items():
+                ctx.check(now[k] == h, "more-slots/preload-mutated/%s" % k, "preloaded %s changed by the inversion (slots %s, %s)" % (k, tag, fname))
+
+
+
+# ---------------------------------------------------------------------------------------------
+# slots filled by the library's own setters from two fits on identical inputs
+SETTERS = ["set_w_tilde_imaging", "set_mapper_list", "set_operated_mapping_matrix_with_preloads",
+           "set_linear_func_inversion_dicts", "set_curvature_matrix", "set_regularization_matrix_and_term"]
+
+
+@st.composite
+def setters_case(draw):
+    c = draw(scene.scenarios(max_objs=3, img_kwargs=dict(max_inner=4, max_k=3, unit_exponents=(0, 0, 0, -10, 10, 14)), obj_kwargs=dict(max_sub=2, max_mesh=4)))
+    c["setter_order"] = draw(st.permutations(list(range(len(SETTERS)))))
+    c["setter_bits"] = draw(st.sampled_from([63, 63, 1, 2, 4, 8, 16, 32, 48, 17, 25, 40, 62]))
+    c["fits_use_w"] = draw(st.booleans())
+    c["fits_fully_read"] = draw(st.booleans())
+    c["positive_only"] = draw(st.sampled_from([False, False, True]))
+    return c
+
+
+def body_setters(case, ctx):
+    """Preloads.set_*(fit_0, fit_1) with two fits whose inversions were built from identical, separately constructed inputs,
+    then inversions that use the resulting Preloads object (twice, both requested formalisms) against the no-preload baseline."""
+    import types
+    import autoarray as aa
+    from autoarray import exc
+    scene.scene_labels(case, ctx)
+    kinds = [o["type"] for o in case["objs"]]
+    ctx.nt("func" in kinds and len(set(kinds)) > 1 or len(kinds) >= 2)
+    pos = case["positive_only"]
+    bases = {w: Baseline(case, w, pos) for w in (False, True)}
+    fits = []
+    for _ in range(2):
+        sc = scene.build_scene(case)
+        inv = aa.Inversion(dataset=sc.dataset, linear_obj_list=sc.objs, settings=_settings(aa, case["fits_use_w"], pos))
+        if case["fits_fully_read"]:
+            for q in ("reconstruction", "log_det_curvature_reg_matrix_term", "log_det_regularization_matrix_term"):
+                try:
+                    getattr(inv, q)
+                except exc.InversionException:
+                    pass
+        fits.append(types.SimpleNamespace(inversion=inv, noise_map=sc.dataset.noise_map, dataset=sc.dataset, data=sc.dataset.data))
+    pre = aa.Preloads()
+    called = []
+    for i in case["setter_order"]:
+        if (case["setter_bits"] >> i) & 1:
+            try:
+                getattr(pre, SETTERS[i])(fit_0=fits[0], fit_1=fits[1])
+            except exc.InversionException:
+                ctx.label("setter-raised-inversion-exception")
+                continue
+            called.append(SETTERS[i])
+    filled = sorted(k for k, v in vars(pre).items() if v is not None and k != "use_w_tilde")
+    for k in filled:
+        ctx.label("setter-filled:%s" % k)
+    ctx.label("setters-filled:%d" % len(filled))
+    fps0 = _slot_fps({k: getattr(pre, k) for k in filled})
+    for round_ in range(2):
+        for use_w in (False, True):
+            sc = scene.build_scene(case)
+            inv = aa.Inversion(dataset=sc.dataset, linear_obj_list=sc.objs, settings=_settings(aa, use_w, pos), preloads=pre)
+            is_w = type(inv).__name__ == "InversionImagingWTilde"
+            base = bases[is_w]
+            prefix = "setters/%s" % ("w_tilde" if is_w else "mapping")
+            for q in QUANTITIES:
+                try:
+                    got = _read(inv, q)
+                except exc.InversionException:
+                    ctx.check(q in base.errs, prefix + "/exception-mismatch", "inversion with setter-filled preloads raised InversionException reading %s, baseline did not (%s)" % (q, "+".join(called)))
+                    continue
+                if q in base.errs:
+                    ctx.fail(prefix + "/exception-mismatch", "baseline raised reading %s, inversion with setter-filled preloads did not (%s)" % (q, "+".join(called)))
+                    continue
+                _compare(ctx, q, got, base, prefix)
+            now = _slot_fps({k: getattr(pre, k) for k in filled})
+            for k, h in fps0.items():
+                ctx.check(now.get(k) == h, "setters/preload-mutated/%s" % k, "slot %s filled by the setters changed after inversion %d (%s)" % (k, 2 * round_ + int(use_w) + 1, "+".join(called)))
+
+
+
+# ---------------------------------------------------------------------------------------------
 class Interp:
     """History interpreter: one shared Preloads object, several inversions, reads in any order."""
 
@@ -210,7 +374,18 @@ class Interp:
             filler = self.bases[a["fill_w"]]
             self.shared_dataset = scene.build_scene(self.case).dataset
             self.pre, self.kw = _preloads_from(aa, filler, self.subset, self.shared_dataset)
-            self.fps = {k: _fp(v) for k, v in self.kw.items() if isinstance(v, np.ndarray)}
+            ebits = a.get("extra_bits", 0)
+            if ebits:
+                aux_sc = scene.build_scene(self.case)
+                aux = aa.Inversion(dataset=aux_sc.dataset, linear_obj_list=aux_sc.objs, settings=_settings(aa, True, self.pos))
+                for i, name in enumerate(ESLOTS):
+                    if (ebits >> i) & 1:
+                        v = _copy_slot(getattr(aux, _EATTR[name]))
+                        if v is not None:
+                            self.kw[name] = v
+                            setattr(self.pre, name, v)
+                            ctx.label("extra-slot:%s" % name)
+            self.fps = _slot_fps(self.kw)
             ctx.label("subset:%d-slots" % len(self.subset), "subset:has-curvature" if "curvature_matrix" in self.subset else "subset:no-curvature")
             return
         if self.case is None:
@@ -244,8 +419,10 @@ class Interp:
         self.check_preloads()
 
     def check_preloads(self):
+        now = _slot_fps(self.kw)
+        held = _slot_fps({k: getattr(self.pre, k) for k in self.kw})
         for k, h in self.fps.items():
-            self.ctx.check(_fp(self.kw[k]) == h and _fp(getattr(self.pre, k)) == h, "preload-mutated/%s" % k,
+            self.ctx.check(now[k] == h and held.get(k) == h, "preload-mutated/%s" % k,
                            "preloaded %s changed after %d inversions / %d reads" % (k, len(self.invs), self.n_reads))
 
     def finish(self):
@@ -258,9 +435,10 @@ def machine(run):
 
     class PreloadMachine(Base):
         @initialize(case=scene.scenarios(max_objs=2, img_kwargs=dict(max_inner=4, max_k=3, unit_exponents=(0, 0, 0, -10, 10, 14, 18)), obj_kwargs=dict(max_sub=2, max_mesh=4)),
-                    subset_bits=st.integers(0, 31), fill_w=st.booleans(), positive_only=st.sampled_from([False, False, True]))
-        def setup(self, case, subset_bits, fill_w, positive_only):
-            self.op("setup", case=case, subset_bits=subset_bits, fill_w=fill_w, positive_only=positive_only)
+                    subset_bits=st.integers(0, 31), fill_w=st.booleans(), positive_only=st.sampled_from([False, False, True]),
+                    extra_bits=st.sampled_from([0, 0, 1, 2, 3, 4, 8, 16, 24, 31]))
+        def setup(self, case, subset_bits, fill_w, positive_only, extra_bits):
+            self.op("setup", case=case, subset_bits=subset_bits, fill_w=fill_w, positive_only=positive_only, extra_bits=extra_bits)
 
         @rule(use_w=st.booleans(), share_dataset=st.booleans())
         def invert(self, use_w, share_dataset):
@@ -275,6 +453,8 @@ def machine(run):
 
 SUBCHECKS = [
     SubCheck("subsets", body_subsets, strategy=subsets_case(), examples={"quick": 320, "thorough": 3200}, shards={"quick": 16, "thorough": 16}),
+    SubCheck("more_slots", body_more_slots, strategy=more_slots_case(), examples={"quick": 320, "thorough": 3200}, shards={"quick": 16, "thorough": 16}),
+    SubCheck("setters", body_setters, strategy=setters_case(), examples={"quick": 240, "thorough": 2400}, shards={"quick": 16, "thorough": 16}),
     SubCheck("history", replay_history(Interp), machine=machine, examples={"quick": 960, "thorough": 8000},
              shards={"quick": 16, "thorough": 16}, steps={"quick": 12, "thorough": 25}),
 ]
